@@ -5,23 +5,23 @@ import TmVerif.Proofs.LRXSafeRecover
 import TmVerif.Proofs.LRXRecover
 namespace TmVerif.LRX
 open TmVerif.LR TmVerif.CFG TmVerif.LRSound
-variable {g : Grammar} {x : XTables} {cert : Cert} {xc : XCert}
+variable {g : Grammar} {x : XTables} {cert : Cert} {xc : XCert} {i : Nat}
 
 /-- what a loop iteration may produce under the invariant -/
-def XStep.Safe (g : Grammar) (x : XTables) (cert : Cert) (inp : Input) : XStep → Prop
-  | .cont c => XInv g x cert inp c
+def XStep.Safe (g : Grammar) (x : XTables) (cert : Cert) (i : Nat) (inp : Input) : XStep → Prop
+  | .cont c => XInv g x cert i inp c
   | .done r _ => r ≠ .panic
 
-theorem errPrelude_inv {inp : Input} {c : XCfg} (h : XInv g x cert inp c) :
-    XInv g x cert inp (errPrelude inp c) := by
+theorem errPrelude_inv {inp : Input} {c : XCfg} (h : XInv g x cert i inp c) :
+    XInv g x cert i inp (errPrelude inp c) := by
   unfold errPrelude
   split
   · exact h.fetch.congr rfl rfl rfl rfl
   · exact h
 
 theorem onError_safe (hc : CertFacts g x.t cert) (hx : XFacts g x cert xc) {inp : Input}
-    (htok : TokOk x.t inp) (fin : Int) (stop : Bool) (c : XCfg) (h : XInv g x cert inp c) :
-    (onError x inp fin stop c).Safe g x cert inp := by
+    (htok : TokOk x.t inp) (fin : Int) (hfi : fin = finOf x i) (stop : Bool) (c : XCfg)
+    (h : XInv g x cert i inp c) : (onError x inp fin stop c).Safe g x cert i inp := by
   cases hr : x.recovering with
   | false =>
     rw [onError_eq_norec inp fin stop c hr]
@@ -30,51 +30,54 @@ theorem onError_safe (hc : CertFacts g x.t cert) (hx : XFacts g x cert xc) {inp 
     rw [onError_eq_rec inp fin stop c hr]
     split
     · exact fun h => nomatch h
-    · have hinv : XInv g x cert inp { errPrelude inp c with recovering := 4 } :=
+    · have hinv : XInv g x cert i inp { errPrelude inp c with recovering := 4 } :=
         (errPrelude_inv h).congr rfl rfl rfl rfl
-      obtain ⟨res, hres, hok⟩ := recoverFromError_total hc hx hr htok fin _ hinv
+      obtain ⟨res, hres, hok⟩ := recoverFromError_total hc hx hr htok fin hfi _ hinv
       rw [hres]
       cases res with
       | none => exact fun h => nomatch h
-      | some c3 => exact hok c3 rfl
+      | some c3 => exact (hok c3 rfl).1
 
 theorem xstep_safe (hc : CertFacts g x.t cert) (hx : XFacts g x cert xc) {inp : Input}
-    (htok : TokOk x.t inp) (fin : Int) (stop : Bool) (k : Nat) (c : XCfg)
-    (h : XInv g x cert inp c) : (xstep x inp fin stop k c).Safe g x cert inp := by
+    (htok : TokOk x.t inp) (fin : Int) (hfi : fin = finOf x i) (stop : Bool) (k : Nat) (c : XCfg)
+    (h : XInv g x cert i inp c) (hne : c.state ≠ fin) :
+    (xstep x inp fin stop k c).Safe g x cert i inp := by
   rw [xstep_pre]
-  have hp := xpre_safe hc hx htok k c h
+  have hp := xpre_safe hc hx htok k c h (by rw [← hfi]; exact hne)
   cases hx' : xpre x inp k c with
   | cont c' => rw [hx'] at hp; exact hp
   | done r c' => rw [hx'] at hp; exact hp
-  | err c' => rw [hx'] at hp; exact onError_safe hc hx htok fin stop c' hp
+  | err c' => rw [hx'] at hp; exact onError_safe hc hx htok fin hfi stop c' hp
 
 theorem xrunLoop_no_panic (hc : CertFacts g x.t cert) (hx : XFacts g x cert xc) {inp : Input}
-    (htok : TokOk x.t inp) (fin : Int) (stop : Bool) (k : Nat) :
-    ∀ (fuel : Nat) (c : XCfg), XInv g x cert inp c →
+    (htok : TokOk x.t inp) (fin : Int) (hfi : fin = finOf x i) (stop : Bool) (k : Nat) :
+    ∀ (fuel : Nat) (c : XCfg), XInv g x cert i inp c →
       (xrunLoop x inp fin stop k fuel c).1 ≠ .panic
   | 0, c, _ => by rw [xrunLoop]; exact fun h => nomatch h
   | fuel + 1, c, h => by
     rw [xrunLoop]
     split
     · exact fun h => nomatch h
-    · have hs := xstep_safe hc hx htok fin stop k c h
+    · next hne =>
+      have hs := xstep_safe hc hx htok fin hfi stop k c h hne
       cases hst : xstep x inp fin stop k c with
       | cont c' =>
         rw [hst] at hs
-        exact xrunLoop_no_panic hc hx htok fin stop k fuel c' hs
+        exact xrunLoop_no_panic hc hx htok fin hfi stop k fuel c' hs
       | done r c' =>
         rw [hst] at hs
         exact hs
 
 /-- every configuration of a segment of the loop satisfies the invariant -/
 theorem XIter.inv (hc : CertFacts g x.t cert) (hx : XFacts g x cert xc) {inp : Input}
-    (htok : TokOk x.t inp) {fin : Int} {stop : Bool} {k : Nat} {c c' : XCfg} {m : Nat}
-    (h : XIter x inp fin stop k c c' m) (hinv : XInv g x cert inp c) : XInv g x cert inp c' := by
+    (htok : TokOk x.t inp) {fin : Int} (hfi : fin = finOf x i) {stop : Bool} {k : Nat}
+    {c c' : XCfg} {m : Nat}
+    (h : XIter x inp fin stop k c c' m) (hinv : XInv g x cert i inp c) : XInv g x cert i inp c' := by
   induction h with
   | refl => exact hinv
-  | step _ hs _ ih =>
+  | step hne hs _ ih =>
     apply ih
-    have := xstep_safe hc hx htok fin stop k _ hinv
+    have := xstep_safe hc hx htok fin hfi stop k _ hinv hne
     rw [hs] at this
     exact this
 
